@@ -142,9 +142,21 @@ class Store:
         self.strides = strides  # optional explicit stride terms (window args)
         self.kind = kind
         self.pos = pos
+        self.flat = None  # optional (offset term, [stride terms]): val is then a 1-D array of flat addresses
+
+    def addr(self, base):
+        """index list used on the backing array"""
+        if self.flat is None:
+            return list(base)
+        off, strides = self.flat
+        a = off
+        for i, s_ in zip(base, strides):
+            a = a + i * s_
+        return [z3.simplify(a) if z3.is_expr(a) else a]
 
     def clone(self):
         s = Store(self.name, self.shape, self.val, self.dfn, self.strides, self.kind, self.pos)
+        s.flat = self.flat
         return s
 
 
@@ -473,8 +485,9 @@ class SymExec:
         st = ref.store
         if self.log_access:
             self.log.append(Access("r", st, base, g, self.par_ctx, where))
-        if st.rank == 0:
+        if st.rank == 0 and st.flat is None:
             return st.val, st.dfn
+        base = st.addr(base)
         v = z3.Select(st.val, *base)
         d = st.dfn if isinstance(st.dfn, bool) else z3.Select(st.dfn, *base)
         return v, d
@@ -484,11 +497,12 @@ class SymExec:
         st = ref.store
         if self.log_access:
             self.log.append(Access(kind, st, base, g, self.par_ctx, where))
-        if st.rank == 0:
+        if st.rank == 0 and st.flat is None:
             st.val = _If(g, v, st.val)
             if not (st.dfn is True and d is True):
                 st.dfn = _If(g, _b(d), _b(st.dfn))
             return
+        base = st.addr(base)
         if g is True:
             st.val = z3.Store(st.val, *base, v)
         else:
@@ -496,7 +510,7 @@ class SymExec:
         if st.dfn is True and d is True:
             return
         if isinstance(st.dfn, bool):
-            st.dfn = z3.K(z3.IntSort(), z3.BoolVal(st.dfn)) if st.rank == 1 else self._constarr(st.rank, st.dfn)
+            st.dfn = z3.K(z3.IntSort(), z3.BoolVal(st.dfn)) if (st.rank == 1 or st.flat is not None) else self._constarr(st.rank, st.dfn)
         if g is True:
             st.dfn = z3.Store(st.dfn, *base, _b(d))
         else:
@@ -621,8 +635,9 @@ class SymExec:
     def load_noobl(self, ref, idx):
         base = ref.base_index(idx)
         st = ref.store
-        if st.rank == 0:
+        if st.rank == 0 and st.flat is None:
             return st.val, st.dfn
+        base = st.addr(base)
         v = z3.Select(st.val, *base)
         d = st.dfn if isinstance(st.dfn, bool) else z3.Select(st.dfn, *base)
         return v, d
